@@ -28,8 +28,8 @@ func VerifC19Emit() {
 		last = vGasOf(vAcct("ir2"))
 	}
 	vAssert(ok == (who == idx && g/2 > 0), "C19/emit-only-by-its-own-alphabet-node-and-with-gas")
+	vRequire(ok, "emitted")
 	if ok {
-		vCover("emitted")
 		vCoverIf(g > 1000000000 && g%2 == 1 && ((g-g/2)*7)%8 != 0 && (irn == 1 || ((g-g/2)*7/8)%irn != 0), "emitted-with-every-rounding-step-inexact")
 		half := g / 2
 		per := (g - half) * 7 / 8 / irn
